@@ -12,7 +12,8 @@
  *   kind=<name>  only this kind               path~=<s>  path or path2 contains s
  *   dst~=<s>     path2 (rename destination) contains s
  *   wr=1         only opens that can write
- *   act=kill-before | kill-after | errno:<E> | short | sig:<N> | sigafter:<N> | delay:<ms>
+ *   act=kill-before | kill-after | errno:<E> | short | sig:<N> (raise, synchronous) | psig:<N> (kill(getpid())) |
+ *       sigafter:<N> | delay:<ms>
  * Only paths below the root count; the log itself lives elsewhere.
  */
 #define _GNU_SOURCE
@@ -178,7 +179,11 @@ static struct op begin(const char *kind, const char *p1, const char *p2, long fl
         if (!strcmp(a, "kill-before")) { logf_("F %ld kill-before\n", o.n); kill(getpid(), SIGKILL); for (;;) pause(); }
         else if (!strcmp(a, "errno")) { logf_("F %ld errno:%ld\n", o.n, o.r->arg); *inj_errno = (int)o.r->arg; }
         else if (!strcmp(a, "short")) { if (bytes > 1) { logf_("F %ld short\n", o.n); *shortw = 1; } }
-        else if (!strcmp(a, "sig")) { logf_("F %ld sig:%ld\n", o.n, o.r->arg); kill(getpid(), (int)o.r->arg); }
+        /* raise() = thread-directed: the handler has run (or the default action has been taken) when it returns, so the
+         * signal has arrived strictly before operation n is performed. A process-directed kill() may be handled by another
+         * thread a few instructions later, which would blur "before operation n". */
+        else if (!strcmp(a, "sig")) { logf_("F %ld sig:%ld\n", o.n, o.r->arg); raise((int)o.r->arg); }
+        else if (!strcmp(a, "psig")) { logf_("F %ld psig:%ld\n", o.n, o.r->arg); kill(getpid(), (int)o.r->arg); }
         else if (!strcmp(a, "delay")) { logf_("F %ld delay:%ld\n", o.n, o.r->arg);
             struct timespec ts = { o.r->arg / 1000, (o.r->arg % 1000) * 1000000L }; nanosleep(&ts, NULL); }
     }
@@ -190,7 +195,7 @@ static void end(struct op o, long ret, int err)
     logf_("A %ld %ld %d\n", o.n, ret, ret < 0 ? err : 0);
     if (o.r) {
         if (!strcmp(o.r->act, "kill-after")) { logf_("F %ld kill-after\n", o.n); kill(getpid(), SIGKILL); for (;;) pause(); }
-        else if (!strcmp(o.r->act, "sigafter")) { logf_("F %ld sigafter:%ld\n", o.n, o.r->arg); kill(getpid(), (int)o.r->arg); }
+        else if (!strcmp(o.r->act, "sigafter")) { logf_("F %ld sigafter:%ld\n", o.n, o.r->arg); raise((int)o.r->arg); }
     }
 }
 
